@@ -1831,6 +1831,10 @@ class ConfigList(UserList):
                 for obj in self.data
                 if obj.text.strip() != "" or obj.blank_line_keep is True
             ]
+            if len(retval) != len(self.data):
+                # line numbers and family links were built with the dropped
+                # lines in place; rebuild them from the kept lines
+                return self.bootstrap([obj.text for obj in retval], debug=debug)
             self.data = retval
 
         self.commit_checkpoint = self.get_checkpoint()
